@@ -63,7 +63,7 @@ func runVortex(r *vlib.Run, g string) {
 	cases := []struct {
 		cols, rows, rate int
 		sel              []int
-	}{{16, 8, 2, []int{0, 1, 2, 3}}, {4, 2, 2, []int{0, 7}}, {8, 3, 4, []int{5, 31, 0}}, {2, 2, 8, []int{15}}, {1, 4, 2, []int{0, 1}}}
+	}{{16, 8, 2, []int{0, 1, 2, 3}}, {4, 2, 2, []int{0, 7}}, {8, 3, 4, []int{5, 31, 0}}, {2, 2, 8, []int{15}}, {4, 5, 4, []int{0, 9, 15}}}
 	if r.Quick() {
 		cases = cases[:4]
 	}
